@@ -15,7 +15,7 @@ import numpy as np
 from .. import gmm_mstep_model as gm
 from .. import gmm_train as gt
 from .. import traces
-from ..common import pin_repo
+from ..common import pin_repo, time_limit
 
 
 def run(ck):
@@ -63,17 +63,37 @@ def m3(ck, em, rng, count):
         cap = int(r.randint(2, 7))
         thr = [None, 0.0, 1e-5, 1e-3, 0.05][r.randint(0, 5)]
         chunks = None
-        if r.rand() < 0.35:
+        if r.rand() < 0.4:
             n = len(X)
-            cut = sorted(set(r.randint(1, n, size=r.randint(1, 3)).tolist()))
+            if r.rand() < 0.5:      # very unequal blocks: a block of one or two samples next to the rest
+                cut = [[1], [n - 1], [2, n - 1], [n - 2]][r.randint(0, 4)]
+            else:
+                cut = sorted(set(r.randint(1, n, size=r.randint(1, 3)).tolist()))
             chunks = tuple(int(s) for s in np.diff([0] + cut + [n]))
         obj = lambda m: float(np.asarray(m.log_likelihood(X)).mean())
         ms, A = gt.trajectory(em, X, init, cap, sw, obj, chunks)
-        final = gt.fit(gt.new_machine(em, init, cap, thr, sw), X, chunks)
+        # half of the traces: the threshold is placed 2 % beside the (pooled) relative change of one iteration of this
+        # very trajectory, so that the stopping iteration is decided by a margin of 2 %; a third of those run without
+        # an iteration limit (the threshold is then placed above, so that the unchanged rule stops by that iteration)
+        fcap, tcap, placed = cap, cap, None
+        if t % 2 == 0:
+            rep = [None] + [gt.reported(ms[k - 1], X) for k in range(1, cap + 1)]
+            ks = [k for k in range(2, cap + 1) if rep[k - 1] not in (0.0, None) and np.isfinite(rep[k]) and rep[k] != rep[k - 1]]
+            if ks:
+                kk = ks[r.randint(0, len(ks))]
+                unlimited = r.rand() < 0.34
+                f = 1.02 if unlimited or r.rand() < 0.5 else 0.98
+                thr = float(abs((rep[kk - 1] - rep[kk]) / rep[kk - 1]) * f)
+                placed = {"beside_iteration": kk, "factor": f, "unlimited": bool(unlimited)}
+                if unlimited:
+                    fcap, tcap = None, -1
+        with time_limit(20):
+            final = gt.fit(gt.new_machine(em, init, fcap, thr, sw), X, chunks)
         tr = gt.build_trace("gmm-ml", ms, A, X, cap, thr, final)
+        tr["cap"] = tcap
         trs.append(tr)
         meta.append({"seed": seed, "n": len(X), "d": X.shape[1], "C": len(init["weights"]), "switches(um,uv,uw)": sw,
-                     "cap": cap, "thr": thr, "chunks": chunks, "avg_loglik": A})
+                     "cap": fcap, "thr": thr, "placed": placed, "chunks": chunks, "avg_loglik": A})
     verdicts = traces.validate(ck, "gmmml", ck.work, trs)
     for tr, me, (v, pos) in zip(trs, meta, verdicts):
         ck.replayed += 1
